@@ -1,4 +1,4 @@
-import HdVerif.Proofs.SegTie
+import HdVerif.Proofs.SegTiles
 import HdVerif.Generated.T21
 /-! # C01  Segmentation masks survive encode, write and read unchanged
 
@@ -478,6 +478,116 @@ example : castStackMaxGuard 2 = .error .value ∧ castUndescribedFast 3 4 = .ok 
     srcFrameMissing 3 2 = .ok true ∧ srcFrameMissing 2 2 = .ok false ∧
     castFloatFractionGuard 2 3 = .error .value ∧ castFloatFractionGuard 2 4 = .ok 0 ∧
     castFloatLabelGuard 3 1 true = .error .value ∧ castFloatLabelGuard 3 1 false = .ok 0 := by decide +kernel
+
+/-! (10) **What travels with a stored frame, and the other reading entry points** (`Model/SegFrames.lean`,
+`Proofs/SegFrames.lean`, `Proofs/SegTiles.lean`).  Tie C for the hand-written `dimIndexValues` / `readByDimIndex` /
+`tileMask`: correspondence streams `case` (L1 `DimensionIndexValues` of every frame, L0 `get_pixels_by_dimension_index_values`)
+and `tiled` (L0/L1 with the model cutting the tiles). -/
+
+/-- (10-pin) **Which segment / plane / position index / source index a frame is recorded with** (tie T, target T25): the
+two nested loops (`for segment_number in segments_iterable`, `for plane_dim_ind, plane_index in enumerate(plane_sort_index,
+1)`), the three assignments to `dimension_index_values`, the arguments handed to `_get_pffg_item`, and what that function
+writes into DimensionIndexValues, ReferencedSegmentNumber and ReferencedFrameNumber -- regenerated on every run -- are
+the ones `dimIndexValues`, `Frame.seg/plane` and `missingRefusal` were written against.  A *change detector*: the link list ↔ model
+is by reading; the start value of the enumeration is used by the model as the regenerated constant `segDimIndexStart`. -/
+theorem pffg_sites_pinned : segPffgSites =
+  ["loop | for segment_number in segments_iterable",
+   "loop | for (plane_dim_ind,plane_index) in enumerate(plane_sort_index,1)",
+   "loop | dimension_index_values=[1]",
+   "loop | dimension_index_values=[]",
+   "loop | dimension_index_values=[plane_dim_ind]",
+   "call | segment_number=segment_number",
+   "call | dimension_index_values=dimension_index_values",
+   "call | plane_position=plane_positions[plane_index]",
+   "call | source_image_index=plane_indexifsource_frame_indicesisNoneelsesource_frame_indices[plane_index]",
+   "_get_pffg_item | segment_numberisNone | all_index_values=dimension_index_values",
+   "_get_pffg_item | not(segment_numberisNone) | all_index_values=[int(segment_number)]+dimension_index_values",
+   "_get_pffg_item | DataElement | 2134359,'UL',all_index_values",
+   "_get_pffg_item | DataElement | 6422539,'US',int(segment_number)",
+   "_get_pffg_item | DataElement | 528736,'IS',source_image_index+1"] ∧ segDimIndexStart = 1 := by
+  constructor <;> rfl
+
+/-- (10a) **Dimension organisation agrees with the frame content order.**  For every accepted mask, with `ord` = the planes
+the loop visits (plane order minus the omitted empty planes): every frame's plane is a visited plane; the
+DimensionIndexValues vectors `[segment,] position index` of the stored frames are strictly increasing in lexicographic
+order along the frames (frames are stored in dimension order), hence pairwise different (`are_dimension_indices_unique`),
+one per frame. -/
+theorem dimension_indices_follow_frame_order (codec : Option Codec) (hcodec : ∀ c, codec = some c → ∀ x, c.dec (c.enc x) = x)
+    (rows cols : Nat) (t : SegType) (segs : List Nat) (mfv : Nat) (omt : Bool) (order : List Nat) (m : Mask)
+    (hperm : order.Perm (List.range m.numPlanes))
+    (o : SegObj) (hb : build codec rows cols t segs mfv omt order m = .ok o) :
+    ∃ arr ov, castMask segs t m = .ok (arr, ov) ∧
+      (planOrder arr mfv omt order).2.Nodup ∧ (∀ k ∈ o.keys, k.2 ∈ (planOrder arr mfv omt order).2) ∧
+      (frameDims (planOrder arr mfv omt order).2 o.keys).Pairwise (fun a b => lexLt a b = true) ∧
+      (frameDims (planOrder arr mfv omt order).2 o.keys).Nodup ∧
+      (frameDims (planOrder arr mfv omt order).2 o.keys).length = o.keys.length := by
+  have hin : ∀ p ∈ order, p < m.numPlanes := fun p hp => List.mem_range.mp (hperm.subset hp)
+  obtain ⟨arr, ov, hcm, hsub, _⟩ := frames_read codec hcodec rows cols t segs mfv omt order m hin o hb
+  obtain ⟨_, arr', _, _, hcm', hs, _⟩ := build_frames codec rows cols t segs mfv omt order m hin o hb
+  have hnd := planOrder_nodup arr omt order (mfv := mfv) (hperm.symm.nodup List.nodup_range)
+  have hk : ∀ k ∈ o.keys, k.2 ∈ (planOrder arr mfv omt order).2 :=
+    fun k hkm => ((mem_cells t segs _ k).mp (hsub.subset hkm)).2
+  have hknd : o.keys.Nodup := hsub.nodup (cells_nodup t segs _ hs.nodup hnd)
+  exact ⟨arr, ov, hcm, hnd, hk, frameDims_sorted t segs _ hs hnd o.keys hsub,
+    (frameDims_nodup_iff _ o.keys hk).mpr hknd, by simp [frameDims]⟩
+
+/-- (10b) **Reading by dimension index values addresses the same stored frames as reading by source image**:
+position index `k` (1-based rank among the visited planes; `segDimIndexStart` is the regenerated start of the enumeration)
+delivers, for every described segment, what `get_pixels_by_source_instance/_frame` delivers for the `k`-th visited plane --
+including the uniqueness check and the zero fill of frames that were omitted.  With (6): the mask passed in. -/
+theorem read_by_dimension_index_is_read_by_source (codec : Option Codec) (o : SegObj) (ord : List Nat) (hnd : ord.Nodup)
+    (hk : ∀ k ∈ o.keys, k.2 ∈ ord) (ks : List Nat)
+    (hks : ∀ k ∈ ks, segDimIndexStart ≤ k ∧ k - segDimIndexStart < ord.length) :
+    readByDimIndex codec o (frameDims ord o.keys) ks =
+      readBySource codec o (ks.map fun k => ord.getD (k - segDimIndexStart) 0) .assertEmpty :=
+  readByDimIndex_eq codec o ord hnd hk ks hks
+
+/-- (10c) **Frame by frame** (`get_stored_frame(i + 1)`, row `i` of `pixel_array`, whatever the transport): the `i`-th
+stored frame is the property's expectation for the segment and the source plane its per-frame functional groups name -- a
+frame of segment `s` is `expectedPlane` of `s` in that plane of the user's mask; the one-hot expansion of a LABELMAP frame is
+`expectedPlane` of every described segment. -/
+theorem stored_frame_roundtrip (codec : Option Codec) (hcodec : ∀ c, codec = some c → ∀ x, c.dec (c.enc x) = x)
+    (rows cols : Nat) (t : SegType) (segs : List Nat) (mfv : Nat) (omt : Bool) (order : List Nat) (m : Mask)
+    (hperm : order.Perm (List.range m.numPlanes))
+    (o : SegObj) (hb : build codec rows cols t segs mfv omt order m = .ok o) (i : Nat) (hi : i < o.keys.length) :
+    ∃ px mpl, readFrame codec o i = .ok px ∧ m.plane? o.keys[i].2 = some mpl ∧
+      (∀ s, o.keys[i].1 = some s → ∃ j, ∃ hj : j < segs.length, segs[j] = s ∧ expectedPlane t mfv j s mpl = some px) ∧
+      (o.keys[i].1 = none → ∀ j (hj : j < segs.length),
+          expectedPlane t mfv j segs[j] mpl = some (px.map fun v => if v = segs[j] then 1 else 0)) :=
+  frame_expected codec hcodec rows cols t segs mfv omt order m (fun p hp => List.mem_range.mp (hperm.subset hp)) o hb i hi
+
+/-- (10d) **A mask handed over as a total pixel matrix** (`tile_pixel_array=True`; also every level of a segmentation
+pyramid, which is such a segmentation of its own).  The `R × C` matrix is cut into `tr × tc` tiles in the row-major order of
+`compute_tile_positions_per_frame`, edge tiles padded with background (`tileMask`); the tiles are the planes of the frame loop,
+so everything above applies to them (types, dtype classes, empty tiles omitted, any frame size mod 8, native or encapsulated).
+If the matrix passes the constructor's pixel checks and the object is built, then for every pixel (r, c) of the matrix and
+every described segment, the value found in the frame of the tile that covers the pixel -- tile number
+`(r / tr) * ⌈C / tc⌉ + c / tc`, position `(r % tr) * tc + c % tc`, which is where `get_total_pixel_matrix` takes it from --
+is the property's expectation for that pixel.  (The reassembly itself, for every region and frame order, is C04's
+`region_assembly` / `tile_then_read`.) -/
+theorem C01_roundtrip_tiled (codec : Option Codec) (hcodec : ∀ c, codec = some c → ∀ x, c.dec (c.enc x) = x)
+    (R C tr tc : Nat) (htr : 1 ≤ tr) (htc : 1 ≤ tc) (t : SegType) (segs : List Nat) (mfv : Nat) (omt : Bool) (m : Mask)
+    (arr : Mask) (ov : Overlap) (hcm : castMask segs t m = .ok (arr, ov)) (hcs : checkSegs t segs = .ok ())
+    (o : SegObj) (hb : buildTiled codec R C tr tc t segs mfv omt m = .ok o) :
+    ∃ mpl out, m.plane? 0 = some mpl ∧
+      readBySource codec o (List.range (tilesAlong R tr * tilesAlong C tc)) .assertEmpty = .ok out ∧
+      ∀ j (hj : j < segs.length), ∃ e, expectedPlane t mfv j segs[j] mpl = some e ∧
+        ∀ r c, r < R → c < C →
+          ((out[(r / tr) * tilesAlong C tc + c / tc]?.bind (·[j]?)).bind (·[(r % tr) * tc + c % tc]?))
+            = some (e.getD (r * C + c) 0) :=
+  tiled_roundtrip codec hcodec R C tr tc htr htc t segs mfv omt m arr ov hcm hcs o hb
+
+/-- non-vacuity of (10d): a 3 × 5 LABELMAP matrix with labels 3 and 300 in 2 × 2 tiles (six tiles, edge tiles padded, three
+tiles empty and omitted) is accepted: frames for tiles 0, 2 and 3 ... -/
+example : (match buildTiled none 3 5 2 2 .labelmap [3, 300] 255 true
+    (.intLabel [[3,0,0,0,300, 0,0,0,0,0, 0,3,0,0,0]]) with
+    | .ok o => o.keys
+    | .error _ => []) = [(none, 0), (none, 2), (none, 3)] := by decide +kernel
+
+/-- ... and of (10a)-(10c): position indices of a three-plane BINARY mask with two segments, the middle plane empty and
+omitted, planes visited in the order 2, 0 -/
+example : frameDims [2, 0] [(some 1, 2), (some 1, 0), (some 2, 0)] = [[1, 1], [1, 2], [2, 2]] ∧
+    lexLt [1, 2] [2, 2] = true ∧ lexLt [2, 2] [1, 2] = false := by decide +kernel
 
 /-! Non-vacuity: concrete non-trivial inputs satisfying the hypotheses. -/
 
